@@ -170,12 +170,8 @@ def stage_t(chk, bindir, rnd, stats, tier):
         core.log(r.out[-3000:])
         raise core.ToolError(f"ZoneTrace failed: {r.error} rc={r.rc}")
     bad = judged = None
-    for line in r.out.splitlines():
-        line = line.strip()
-        if line.startswith('<<"BAD", "') and line.endswith('">>'):
-            bad = json.loads(line[len('<<"BAD", "'):-3].replace('\\"', '"'))
-        if line.startswith('<<"JUDGED", '):
-            judged = int(line[len('<<"JUDGED", '):-2])
+    bad = r.printed_last("BAD")
+    judged = r.printed_int("JUDGED")
     if bad is None or judged is None:
         raise core.ToolError("ZoneTrace produced no verdict")
     stats["trace_records_judged_by_tlc"] = judged
